@@ -139,8 +139,36 @@ def eval_pv(invs, power, outcomes):
     return r, oracle("pv", power, None, {i: {i} for i in r["ids"]}, outcomes, r)
 
 
+def pv_concurrent_shard(_tier) -> Acc:
+    """Two PV pools with disjoint inverter sets served by one PVManager: the second request arrives while the calls of
+    the first are still awaited (slow replies).  Each result must account for ITS request."""
+    acc = Acc()
+    invs = [(-500.0, 0.0), (-1500.0, 0.0), (-800.0, 0.0), (-300.0, 0.0)]
+    for pa, pb in ((-600.0, -900.0), (-1700.0, -200.0)):
+        for vec in itertools.product(("ok", "client", "slow", "hang"), repeat=2):
+            for vec_b in (("ok", "ok"), ("client", "ok")):
+                outcomes = {11: vec[0], 12: vec[1], 13: vec_b[0], 14: vec_b[1]}
+                rs = mgr.run_pv_concurrent(invs, (pa, [0, 1]), (pb, [2, 3]), outcomes)
+                acc.evaluations += 1
+                acc.traces += 1
+                acc.transitions += 6
+                acc.nontrivial += 1
+                for c in CLAUSES:
+                    acc.clauses[c] += 2
+                acc.state(("pv-concurrent", pa, pb, vec, vec_b))
+                acc.outcome("pv two requests in flight")
+                for r, power in zip(rs, (pa, pb)):
+                    viol = oracle("pv", power, None, {i: {i} for i in r["ids"]}, outcomes, r)
+                    for clause, detail in viol:
+                        acc.violation(Violation(clause, {"kind": "pv-concurrent", "powers": [pa, pb], "outcomes": {str(k): v for k, v in outcomes.items()}},
+                                                dict(detail, request=power, calls=r["calls"], result=repr(r["result"])[:300]), ("pv-pool",)))
+    return acc
+
+
 def shard_fn(shard) -> Acc:
     kind, name, tier = shard
+    if kind == "pv-concurrent":
+        return pv_concurrent_shard(tier)
     acc = Acc()
     if kind == "battery":
         groups, not_working, no_data = battery_configs(tier)[name]
@@ -196,7 +224,7 @@ def shard_fn(shard) -> Acc:
 
 
 def run(tier: str, seed: int, workers: int):
-    shards = [("battery", n, tier) for n in battery_configs(tier)] + [("pv", n, tier) for n in PV_SETS]
+    shards = [("battery", n, tier) for n in battery_configs(tier)] + [("pv", n, tier) for n in PV_SETS] + [("pv-concurrent", "two-pools", tier)]
     if seed:
         import random
 
@@ -208,7 +236,8 @@ def run(tier: str, seed: int, workers: int):
         "(both signs, incl. surplus over the inclusion bound; battery requests inside the advertised bounds also with adjust_power=False "
         "over ok / client error / timeout), ALL 6^n outcome vectors (ok / OperationOutOfRange / "
         "ApiClientError / RuntimeError / no reply until timeout / success after 5.2 s with a request timeout of 5.5 s) over the set_power calls; each vector is run once on the "
-        "real manager over the virtual loop; non-trivial = at least one failing call among >= 2 calls",
+        "real manager over the virtual loop; plus two PV requests for disjoint inverter sets with the second issued while the calls of the "
+        "first are still awaited (ok / client error / slow / no reply); non-trivial = at least one failing call among >= 2 calls",
         "assumptions": [
             "ComponentPoolStatusTracker replaced by a stub reporting all requested components as working (C16 covers it)",
             "fake microgrid API client; virtual clock drives the 5.5 s request timeout",
@@ -223,6 +252,9 @@ def run(tier: str, seed: int, workers: int):
 
 def replay(case: dict):
     outcomes = {int(k): v for k, v in case["outcomes"].items()}
+    if case["kind"] == "pv-concurrent":
+        a = pv_concurrent_shard("quick")
+        return [(v.clause, v.detail) for v in a.violations.values() if v.case == case]
     if case["kind"] == "battery":
         groups = [dist.group_from_json(g) for g in case["groups"]]
         r, viol = eval_battery(groups, case["power"], outcomes, case.get("not_working", ()), case.get("no_data", ()),
